@@ -166,7 +166,12 @@ class Interp:
                     if names is None or sig.cls in names or 'Exception' in names:
                         if h.name:
                             env[h.name] = Sym('exc', sig.cls, sig.args_)
-                        self.exec_block(h.body, env)
+                        try:
+                            self.exec_block(h.body, env)
+                        except RaiseSig as again:
+                            if again.cls == '<reraise>':
+                                raise sig
+                            raise
                         break
                 else:
                     raise
@@ -457,6 +462,8 @@ class Interp:
                         return a[2]
                     if e.attr == 'line_number':
                         return a[3] if len(a) > 3 else None
+                if base.kind == 'exc':
+                    return Sym('excattr', base.args[0], e.attr)
                 return Sym('attr', base, e.attr)
             self.bad(e, 'attribute access outside the subset')
         if isinstance(e, ast.Call):
@@ -710,6 +717,9 @@ class Interp:
             if name == 'enumerate':
                 return [(i, x) for i, x in enumerate(self.iterate(args[0], e))]
             if name == 'isinstance':
+                if isinstance(args[0], Sym) and args[0].kind == 'exc':
+                    classes = [norm(x) for x in (e.args[1].elts if isinstance(e.args[1], ast.Tuple) else [e.args[1]])]
+                    return args[0].args[0] in classes or 'Exception' in classes or 'BaseException' in classes
                 if isinstance(args[0], Sym):
                     raise Unrecognised(self.rule, 'isinstance on a symbolic value', self.mod.rel)
                 cls = norm(e.args[1])
@@ -739,7 +749,13 @@ class Interp:
             return Sym('instance', fn[1], tuple(args))
         if isinstance(fn, tuple) and fn and fn[0] in ('closure', 'partial'):
             return self.apply(fn, args, e)
+        r = self.call_value_hook(fn, args, e)
+        if r is not NotImplemented:
+            return r
         self.bad(e, 'call outside the interpreted subset')
+
+    def call_value_hook(self, fn, args, e):
+        return NotImplemented
 
     def apply(self, fn, args, at):
         """call an abstract function value: ModuleFunc, ('partial', fn, pre-args), ('closure', Lambda, env)"""
